@@ -112,7 +112,7 @@ InitWith(config) ==
     /\ LC!InitWith(SupportedBy(config.enc), TRUE)
     /\ app = [nops |-> 0, op |-> "none", left |-> 0, n |-> 0]
     /\ call = NoCall
-    /\ sc = [sseq |-> "HDR", binit |-> TRUE, chain |-> config.chain0, bseq |-> "CODE", blockIn |-> 0]
+    /\ sc = [sseq |-> "HDR", binit |-> TRUE, chain |-> config.chain0, bseq |-> "CODE", blockIn |-> 0, hdr |-> config.chain0]
     /\ fl = FreshFl(config.chain0)
     /\ mt = [seq |-> "HDR", thr |-> FALSE, q |-> <<>>, chain |-> config.chain0, ph |-> "read"]
     /\ blocks = <<>>
@@ -126,7 +126,7 @@ ResetTo(config) ==
     /\ allowBuf' = FALSE /\ totalIn' = 0 /\ totalOut' = 0 /\ obs' = LC!NoObs
     /\ app' = [nops |-> 0, op |-> "none", left |-> 0, n |-> 0]
     /\ call' = NoCall
-    /\ sc' = [sseq |-> "HDR", binit |-> TRUE, chain |-> config.chain0, bseq |-> "CODE", blockIn |-> 0]
+    /\ sc' = [sseq |-> "HDR", binit |-> TRUE, chain |-> config.chain0, bseq |-> "CODE", blockIn |-> 0, hdr |-> config.chain0]
     /\ fl' = FreshFl(config.chain0)
     /\ mt' = [seq |-> "HDR", thr |-> FALSE, q |-> <<>>, chain |-> config.chain0, ph |-> "read"]
     /\ blocks' = <<>>
@@ -190,7 +190,7 @@ BlockRet(r, f2, c2, tk) ==
          /\ sc' = sc
     ELSE \* stream_encode(): lzma_index_append(); sequence = SEQ_BLOCK_INIT; break
          /\ Silent /\ fl' = f2 /\ tok' = tk /\ UNCHANGED mt
-         /\ blocks' = Append(blocks, [n |-> sc.blockIn, chain |-> sc.chain])
+         /\ blocks' = Append(blocks, [n |-> sc.blockIn, chain |-> sc.hdr])
          /\ sc' = [sc EXCEPT !.sseq = "BINIT"]
          /\ call' = [c2 EXCEPT !.lvl = "top"]
 
@@ -199,7 +199,7 @@ BlockRetSc(r, s2, c2, tk) ==
     IF cfg.enc = "block" \/ r # "STREAM_END" \/ call.a = "SYNC_FLUSH"
     THEN /\ Return(r, c2) /\ sc' = s2 /\ tok' = tk /\ UNCHANGED <<fl, mt, blocks>>
     ELSE /\ Silent /\ tok' = tk /\ UNCHANGED <<fl, mt>>
-         /\ blocks' = Append(blocks, [n |-> s2.blockIn, chain |-> s2.chain])
+         /\ blocks' = Append(blocks, [n |-> s2.blockIn, chain |-> s2.hdr])
          /\ sc' = [s2 EXCEPT !.sseq = "BINIT"]
          /\ call' = [c2 EXCEPT !.lvl = "top"]
 
@@ -320,7 +320,7 @@ L2Step ==
                       /\ ends /\ f1.chunk
                       /\ Silent /\ tok' = NoTok /\ UNCHANGED <<mt, blocks, sc, call>>
                       /\ fl' = [f1 EXCEPT
-                            !.chunkTok = [kind |-> "lzma",
+                            !.chunkTok = [kind |-> "lzma", pre |-> f1.pre,
                                           reset |-> IF f1.needProps THEN (IF f1.needDict THEN "all" ELSE "props")
                                                     ELSE IF f1.needState THEN "state" ELSE "none",
                                           hprops |-> IF f1.needProps THEN f1.optCur ELSE "nil",
@@ -331,7 +331,7 @@ L2Step ==
                       /\ ends /\ f1.chunk
                       /\ Silent /\ tok' = NoTok /\ UNCHANGED <<mt, blocks, sc, call>>
                       /\ fl' = [f1 EXCEPT
-                            !.chunkTok = [kind |-> "unc", dictReset |-> f1.needDict],
+                            !.chunkTok = [kind |-> "unc", pre |-> f1.pre, dictReset |-> f1.needDict],
                             !.needDict = FALSE,
                             !.needState = IF Has("no_state_reset_after_uncompressed") THEN f1.needState ELSE TRUE,
                             !.l2seq = "UHDR"]
@@ -341,10 +341,10 @@ L2Step ==
                    LET f1 == [fl EXCEPT !.chunk = FALSE, !.l2seq = "INIT", !.chunkTok = NoTok] IN
                    /\ Silent /\ UNCHANGED <<mt, blocks, sc>>
                    /\ tok' = IF fl.chunkTok.kind = "lzma"
-                             THEN [kind |-> "lzma", reset |-> fl.chunkTok.reset, hprops |-> fl.chunkTok.hprops,
+                             THEN [kind |-> "lzma", pre |-> fl.chunkTok.pre, reset |-> fl.chunkTok.reset, hprops |-> fl.chunkTok.hprops,
                                    eprops |-> fl.chunkTok.eprops, efresh |-> fl.chunkTok.efresh,
                                    allOut |-> PipeEmpty(f1)]
-                             ELSE [kind |-> "unc", dictReset |-> fl.chunkTok.dictReset, allOut |-> PipeEmpty(f1)]
+                             ELSE [kind |-> "unc", pre |-> fl.chunkTok.pre, dictReset |-> fl.chunkTok.dictReset, allOut |-> PipeEmpty(f1)]
                    /\ fl' = f1 /\ call' = OutDone(f)
          [] fl.l2seq = "UHDR" ->
               \/ PartialOut
@@ -424,12 +424,13 @@ StreamStep ==
            ELSE \* block_encoder_init() unless done by stream_encoder_init/update; Block Header
                 /\ Silent /\ tok' = NoTok /\ UNCHANGED <<mt, blocks, call>>
                 /\ fl' = IF sc.binit THEN fl ELSE FreshFl(sc.chain)
-                /\ sc' = [sc EXCEPT !.binit = FALSE, !.sseq = "BHDR", !.bseq = "CODE", !.blockIn = 0]
+                /\ sc' = [sc EXCEPT !.binit = FALSE, !.sseq = "BHDR", !.bseq = "CODE", !.blockIn = 0,
+                                    !.hdr = sc.chain]      \* lzma_block_header_encode() into coder->buffer
       [] sc.sseq = "BHDR" ->
            \/ PartialOut
            \/ \E f \in FullAfter :
                 /\ Silent /\ UNCHANGED <<fl, mt, blocks>>
-                /\ tok' = [kind |-> "block_header", chain |-> sc.chain]
+                /\ tok' = [kind |-> "block_header", chain |-> sc.hdr]
                 /\ sc' = [sc EXCEPT !.sseq = "BENC"] /\ call' = OutDone(f)
       [] sc.sseq = "BENC" ->
            \* coder->block_encoder.code(..., convert[action])
@@ -479,7 +480,10 @@ MtStep ==
                    /\ ~mt.thr
                    /\ Silent /\ tok' = NoTok /\ UNCHANGED <<sc, fl, blocks, call>>
                    /\ mt' = [mt EXCEPT !.ph = "decide"]
-                \/ /\ mt.thr \/ (Len(mt.q) < QMax /\ call.plan > call.uin)
+                \/ /\ ~mt.thr /\ mt.chain.lz = "freed" /\ call.plan > call.uin
+                   \* (Bugs only) no filter chain left: the worker's Block encoder cannot be initialised
+                   /\ RetOnly("PROG_ERROR")
+                \/ /\ mt.thr \/ (Len(mt.q) < QMax /\ call.plan > call.uin /\ mt.chain.lz # "freed")
                    /\ LET q1 == IF mt.thr THEN mt.q
                                 ELSE Append(mt.q, [n |-> 0, closed |-> FALSE, chain |-> mt.chain])
                           cur == q1[Len(q1)].n
@@ -566,28 +570,49 @@ BlockUpdate(s, f, t) ==
     ELSE IF t.lz # f.lz THEN [ret |-> "PROG_ERROR", f |-> f]                  \* lzma_next_filter_update(): id check
     ELSE LzUpdate(f, t)
 
-Update(t) ==
-    /\ ~call.active /\ app.op = "none"
+\* fm: what the application's lzma_allocator does during this call:
+\*   "none"  works;
+\*   "copy"  fails every allocation (the first one is the copy of the filter options: lzma_filters_copy());
+\*   "init"  lets the option copies succeed and fails every later one (the (re)initialisation of the filters;
+\*           whether that allocates at all depends on what can be reused: either outcome is possible).
+\* The application may call this between any two lzma_code() calls, also while an operation is unfinished.
+FailModes == {"none", "copy", "init"}
+Update(t, fm) ==
+    /\ ~call.active
     /\ app' = [app EXCEPT !.nops = @ + 1]
     /\ UNCHANGED <<lcvars, cfg, call, blocks>> /\ tok' = NoTok
-    /\ LET done(r) == ev' = [kind |-> "update", target |-> t, ret |-> r, open |-> OpenBlock] IN
+    /\ LET done(r) == ev' = [kind |-> "update", target |-> t, ret |-> r, open |-> OpenBlock, fail |-> fm,
+                             mid |-> (app.op # "none")] IN
        IF ~ValidChain(t)
        THEN done("OPTIONS_ERROR") /\ UNCHANGED <<sc, fl, mt>>
        ELSE
        CASE cfg.enc = "stream" ->
-              IF sc.sseq \in {"HDR", "BINIT"} /\ ~InitOk(t)
-              THEN \* block_encoder_is_initialized = false; block_encoder_init() fails inside the filter
-                   \* initialisation: the Block encoder's filters are gone, the next Block must initialise again
-                   /\ done("OPTIONS_ERROR") /\ UNCHANGED mt
-                   /\ sc' = [sc EXCEPT !.binit = Has("update_keeps_block_initialized") /\ sc.binit]
-                   /\ fl' = [fl EXCEPT !.dead = TRUE]
-              ELSE IF sc.sseq \in {"HDR", "BINIT"} \/ (Has("stream_update_mid_block") /\ sc.sseq = "BENC")
-              THEN \* block_encoder_init() with the new chain
-                   /\ done("OK") /\ UNCHANGED mt
-                   /\ sc' = [sc EXCEPT !.binit = TRUE, !.chain = t, !.bseq = "CODE", !.blockIn = IF sc.sseq = "BENC" THEN @ ELSE 0]
-                   /\ fl' = [FreshFl(t) EXCEPT !.lost = ~PipeEmpty(fl) /\ sc.sseq = "BENC"]
+              IF fm = "copy"
+              THEN \* return_if_error(lzma_filters_copy(filters, temp, allocator)) comes before anything else
+                   done("MEM_ERROR") /\ UNCHANGED <<sc, fl, mt>>
+              ELSE IF sc.sseq \in {"HDR", "BINIT"}
+                      \/ (Has("stream_update_mid_block") /\ sc.sseq = "BENC")
+                      \/ (Has("stream_update_in_block_header") /\ sc.sseq = "BHDR")
+              THEN \* block_encoder_is_initialized = false; block_encoder_init() with the new chain
+                   \/ /\ ~InitOk(t) \/ fm = "init"
+                      \* ... fails inside the filter initialisation (LZMA_OPTIONS_ERROR from the BCJ filter or
+                      \* LZMA_MEM_ERROR): the Block encoder's filters are gone, the next Block must initialise again
+                      /\ done(IF fm = "init" THEN "MEM_ERROR" ELSE "OPTIONS_ERROR") /\ UNCHANGED mt
+                      /\ sc' = [sc EXCEPT !.binit = Has("update_keeps_block_initialized") /\ sc.binit]
+                      /\ fl' = [fl EXCEPT !.dead = TRUE]
+                   \/ /\ ~InitOk(t) /\ fm = "init"
+                      \* the allocations before lzma_simple_coder_init() were not needed: refused there
+                      /\ done("OPTIONS_ERROR") /\ UNCHANGED mt
+                      /\ sc' = [sc EXCEPT !.binit = Has("update_keeps_block_initialized") /\ sc.binit]
+                      /\ fl' = [fl EXCEPT !.dead = TRUE]
+                   \/ /\ InitOk(t)
+                      /\ done("OK") /\ UNCHANGED mt
+                      /\ sc' = [sc EXCEPT !.binit = TRUE, !.chain = t, !.bseq = "CODE",
+                                          !.blockIn = IF sc.sseq = "BENC" THEN @ ELSE 0]
+                      /\ fl' = [FreshFl(t) EXCEPT !.lost = ~PipeEmpty(fl) /\ sc.sseq = "BENC"]
               ELSE IF sc.sseq \in {"BHDR", "BENC"}
-              THEN LET r == BlockUpdate(sc, fl, t) IN
+              THEN \* coder->block_encoder.update(): only filter-specific options; allocates nothing
+                   LET r == BlockUpdate(sc, fl, t) IN
                    /\ done(r.ret) /\ UNCHANGED mt /\ fl' = r.f
                    /\ sc' = IF r.ret = "OK" THEN [sc EXCEPT !.chain = t] ELSE sc
               ELSE done("PROG_ERROR") /\ UNCHANGED <<sc, fl, mt>>
@@ -598,6 +623,10 @@ Update(t) ==
          [] cfg.enc = "mt" ->
               IF mt.seq \in {"INDEX", "FOOTER"} THEN done("PROG_ERROR") /\ UNCHANGED <<sc, fl, mt>>
               ELSE IF mt.thr /\ ~Has("mt_update_mid_block") THEN done("PROG_ERROR") /\ UNCHANGED <<sc, fl, mt>>
+              ELSE IF fm = "copy"
+              THEN \* lzma_filters_copy(filters, temp, allocator) failed: coder->filters is untouched
+                   /\ done("MEM_ERROR") /\ UNCHANGED <<sc, fl>>
+                   /\ mt' = IF Has("mt_update_frees_first") THEN [mt EXCEPT !.chain = Chain("none", "freed", "p0")] ELSE mt
               ELSE /\ done("OK") /\ UNCHANGED <<sc, fl>>
                    /\ mt' = IF mt.thr
                             THEN [mt EXCEPT !.chain = t, !.q = [@ EXCEPT ![Len(@)] = [@ EXCEPT !.chain = t]]]
@@ -614,7 +643,7 @@ Next ==
     \/ /\ app.op # "none"
        /\ BeginCall(app.op, app.left, app.left, FALSE, 1, "any", FALSE) \/ RejectedCall(app.op, app.left)
     \/ InnerStep
-    \/ /\ app.nops < MaxOps /\ \E t \in Targets : Update(t)
+    \/ /\ app.nops < MaxOps /\ \E t \in Targets, fm \in FailModes : Update(t, fm)
 
 \* ---------------------------------------------------------------- derived state (for contracts and bindings)
 TotalBlockBytes ==
